@@ -219,6 +219,65 @@ def replay_build_tree(r):
         if prob: out.append(f'{L} {a}: {prob}')
     return dict(reproduced=bool(out), detail='; '.join(out)[:600] or 'trees of the sample tableaux are faithful')
 
+def stats_obligation(ctx):
+    """Tableau._compute_stats / _result_word interpreted from source over symbolic counts: the statistics are the observable
+    counts (branches, open, closed = branches - open, steps = |history|, distinct nodes of the tree) and the result word follows
+    the verdict"""
+    from pytableaux.proof import Tableau
+    fn = Tableau.__dict__['_compute_stats']; fi = source.of_function(fn); where = ctx.under_contract(fi)
+    fr_ = Tableau.__dict__['_result_word']; fir = source.of_function(fr_); ctx.under_contract(fir)
+    nb, no, nh, dn = z3.Int('branches'), z3.Int('open'), z3.Int('steps'), z3.Int('distinct')
+    class Len(SymVal):
+        def __init__(s, n, items=None): s.n, s.items = n, items
+        def sym_len(s, it): return s.n
+        def sym_iter(s, it): return list(s.items or [])
+    class Timer(SymVal):
+        def sym_getattr(s, it, n):
+            if n == 'elapsed_ms': return Contract(lambda it: 0, 'StopWatch.elapsed_ms')
+            raise Outside(n)
+    class Timers(SymVal):
+        def sym_getattr(s, it, n): return Timer()
+        def sym_getitem(s, it, k): return Timer()
+    world = World()
+    bad = []; cl = []
+    for has_tree in (True, False):
+        for verdict in ('valid', 'invalid', 'completed', 'unfinished'):
+            class TM(SymVal):
+                def sym_len(s, it): return nb
+                def sym_getattr(s, it, n):
+                    if n == 'tree':
+                        if has_tree: return Holder(distinct_nodes=dn)
+                        return None
+                    if n == 'timers': return Timers()
+                    if n == 'open': return Len(no)
+                    if n == 'history': return Len(nh, [])
+                    if n == 'rules': return GenList([])
+                    if n == 'valid': return True if verdict == 'valid' else (False if verdict == 'invalid' else None)
+                    if n == 'invalid': return True if verdict == 'invalid' else (False if verdict == 'valid' else None)
+                    if n == 'completed': return verdict in ('valid', 'invalid', 'completed')
+                    if n == '_result_word':
+                        from pyvc.interp import BoundSource
+                        return BoundSource(fir, fr_, Tableau, s)
+                    raise Outside(f'Tableau.{n}')
+            tm = TM()
+            try:
+                prs = explore(lambda path: Interp(path, world).call_source(fi, fn, Tableau, [tm], {}, recv=tm))
+            except Outside as e:
+                return ctx.add_result(Result('C16._compute_stats.counts', 'unknown', detail=f'outside subset: {e}', where=where))
+            for pr in prs:
+                if pr.kind != 'return' or not isinstance(pr.value, dict): bad.append(f'{verdict}: {pr.kind}'); continue
+                d = pr.value
+                want_word = dict(valid='Valid', invalid='Invalid', completed='Completed', unfinished='Unfinished')[verdict]
+                if d.get('result') != want_word: bad.append(f'result word {d.get("result")!r} for {verdict}')
+                if has_tree:
+                    if d.get('distinct_nodes') is not dn: bad.append('distinct_nodes is not the tree count')
+                elif d.get('distinct_nodes') is not None: bad.append('distinct_nodes without a tree')
+                try:
+                    cl.append(z3.Implies(pr.pc, z3.And(d['branches'] == nb, d['open_branches'] == no, d['closed_branches'] == nb - no, d['steps'] == nh)))
+                except Exception as e: bad.append(f'malformed: {e!r}')
+    ctx.add(Obligation('C16._compute_stats.counts', z3.And(z3.BoolVal(not bad), *cl), where=where,
+                       meta=dict(clause='stats: branches = len(tableau), open_branches = len(open), closed_branches = branches - open_branches, steps = len(history), distinct_nodes = tree.distinct_nodes (None without a tree), result word = Valid / Invalid / Completed / Unfinished following the verdict', bad=bad[:4])))
+
 # ------------------------------------------------------------------ listeners of Tableau.__listen_on
 
 def listeners(ctx):
@@ -606,6 +665,7 @@ def run(ctx):
                        'Bounded: the bookkeeping invariant re-checked after the trunk and after every step of seeded proofs in all logics through the public API, tree shape and counts and statistics recomputed after finishing.')
     build_branches(ctx)
     build_tree(ctx)
+    stats_obligation(ctx)
     listeners(ctx)
     branch_methods(ctx)
     structs.adz_apply_obligations(ctx, 'C16')
